@@ -165,6 +165,7 @@ func runC07(a *A) {
 	a.Rule("shape/whole-call-slice", 4, func() { a.ruleWholeCallSlice("rsql", "aggregator") })
 	a.Rule("flow/expression-argument-registered", 3, func() { a.ruleExpressionArgumentRegistered() })
 	a.Rule("tables/clause-terminators", 12, func() { a.ruleClauseTerminators() })
+	a.Rule("flow/having-fails-closed", 2, func() { a.ruleHavingFailsClosed() })
 	a.Rule("shape/keyword-by-substring", 2, func() { a.ruleKeywordBySubstring("rsql", "stream", "aggregator", "functions", "condition") })
 }
 
